@@ -101,6 +101,18 @@ where
                 "random" => ProofCommitmentChallenge::<C>::new(),
                 _ => ProofCommitmentChallenge::<C>(Sc::<C>::ZERO),
             };
+            // the facade constructors are the same functions
+            if gets(v, "y") == "hash" {
+                use rand::SeedableRng;
+                if BlsSignature::<C>::proof_challenge_from_hash(b"verif challenge seed").to_be_bytes() != y.to_be_bytes() {
+                    return Outcome::fail(json!({"path": "facade"}), "BlsSignature::proof_challenge_from_hash and ProofCommitmentChallenge::from_hash disagree");
+                }
+                let a = BlsSignature::<C>::random_proof_challenge(rand_chacha::ChaCha8Rng::seed_from_u64(11));
+                let b = ProofCommitmentChallenge::<C>::random(rand_chacha::ChaCha8Rng::seed_from_u64(11));
+                if a.to_be_bytes() != b.to_be_bytes() {
+                    return Outcome::fail(json!({"path": "facade"}), "BlsSignature::random_proof_challenge and ProofCommitmentChallenge::random disagree on one generator state");
+                }
+            }
             let f = comm.finalize(x, y.clone(), sig);
             let fgot = if f.is_ok() { "Ok" } else { "Err" };
             if fgot != gets(&v["expect"], "finalize") {
